@@ -112,6 +112,12 @@ def opCjStep : Op
         let v ← cjVal v
         pure (saveFixed cjMaxLen A name v jar)
       else if op == "clear" then pure (.ok (clearStore name jar))
+      else if op == "saveclear" then do
+        let v ← cjVal v
+        pure (match saveFixed cjMaxLen A name v jar with
+          | .ok cs => .ok (clearAfter name cs jar)
+          | .err e => .err e
+          | .panic e => .panic e)
       else none : Option (Outcome (List SetCookie)))
     match cs with
     | .ok cs =>
